@@ -298,6 +298,13 @@ def _chk_jac(ctx, m, q, t1, t2):
 
 def t_jac_small(ctx, q, chunk, nchunks):
     import py_ecc.secp256k1.secp256k1 as m
+    from vf.props._secp_common import substitution_supported
+    ok, why = substitution_supported()
+    if not ok:
+        ctx.note(f"secp256k1 small-prime Jacobian tier skipped: {why}")
+        ctx.label("required_waived:A:jac")
+        ctx.label("jac_small_tier_skipped")
+        return
     saved = (m.P, m.A)
     m.P, m.A = q, 0
     try:
